@@ -63,10 +63,12 @@ class CCodeMapper(LokiStringifyMapper):
         return super().map_logic_literal(expr, enclosing_prec, *args, **kwargs).lower()
 
     def map_float_literal(self, expr, enclosing_prec, *args, **kwargs):
+        # Fortran's double-precision exponent letter (``1.0d0``) is not valid in C
+        value = str(expr.value).lower().replace('d', 'e')
         if expr.kind is not None:
             _type = SymbolAttributes(BasicType.REAL, kind=expr.kind)
-            return f'({self.intrinsic_type_mapper(_type)}) {str(expr.value)}'
-        return str(expr.value)
+            return f'({self.intrinsic_type_mapper(_type)}) {value}'
+        return value
 
     def map_int_literal(self, expr, enclosing_prec, *args, **kwargs):
         if expr.kind is not None:
